@@ -24,6 +24,7 @@ import (
 	"testing"
 	"time"
 
+	"github.com/btcsuite/btcd/btcjson"
 	"github.com/btcsuite/btcd/btcutil/v2"
 	"github.com/btcsuite/btcd/chainhash/v2"
 	"github.com/btcsuite/btcd/wire/v2"
@@ -195,30 +196,32 @@ type c14 struct {
 	txByHash map[chainhash.Hash]int
 
 	// per case
-	n        *TxNotifier
-	hc       *c14Hints
-	limit    uint32
-	cur      uint32
-	maxTip   uint32
-	lazy     bool
-	chain    map[uint32]*c14Block
-	blkByID  map[chainhash.Hash]int
-	nextBlk  int
-	regs     []*c14Reg
-	confReq  map[int]ConfRequest
-	spendReq map[int]SpendRequest
-	confIDs  map[uint64]int // ConfID -> reg handle
-	spendIDs map[uint64]int
-	pendC    map[int]uint32 // key -> start height of the outstanding historical dispatch
-	pendS    map[int]uint32
-	lastC    map[int]uint32
-	lastS    map[int]uint32
-	endC     map[int]uint32 // key -> end height (height at registration) of the last dispatch
-	endS     map[int]uint32
-	oldRange bool // next rescan completion answers for the dispatched range only
-	lastSt   map[string]string
-	needNtfy uint32
-	dead     bool
+	n         *TxNotifier
+	hc        *c14Hints
+	limit     uint32
+	cur       uint32
+	maxTip    uint32
+	lazy      bool
+	chain     map[uint32]*c14Block
+	blkByID   map[chainhash.Hash]int
+	blkByHash map[chainhash.Hash]*c14Block
+	backend   map[uint32]*c14Block // the backend's main chain during a fork switch
+	nextBlk   int
+	regs      []*c14Reg
+	confReq   map[int]ConfRequest
+	spendReq  map[int]SpendRequest
+	confIDs   map[uint64]int // ConfID -> reg handle
+	spendIDs  map[uint64]int
+	pendC     map[int]uint32 // key -> start height of the outstanding historical dispatch
+	pendS     map[int]uint32
+	lastC     map[int]uint32
+	lastS     map[int]uint32
+	endC      map[int]uint32 // key -> end height (height at registration) of the last dispatch
+	endS      map[int]uint32
+	oldRange  bool // next rescan completion answers for the dispatched range only
+	lastSt    map[string]string
+	needNtfy  uint32
+	dead      bool
 }
 
 func (c *c14) pf(format string, a ...interface{}) { fmt.Fprintf(c.w, format+"\n", a...) }
@@ -247,12 +250,50 @@ func (c *c14) blockStr(b *c14Block) string {
 func (c *c14) mkBlock(height uint32, txs []int) *c14Block {
 	c.nextBlk++
 	mb := &wire.MsgBlock{Header: wire.BlockHeader{Nonce: uint32(c.nextBlk), Bits: uint32(c.caseNo)}}
+	if height > 0 {
+		if prev := c.chain[height-1]; prev != nil {
+			mb.Header.PrevBlock = *prev.blk.Hash()
+		}
+	}
 	for _, t := range txs {
 		mb.Transactions = append(mb.Transactions, c.txs[t])
 	}
 	b := &c14Block{id: c.nextBlk, height: height, txs: txs, blk: btcutil.NewBlock(mb)}
 	c.blkByID[*b.blk.Hash()] = b.id
+	c.blkByHash[*b.blk.Hash()] = b
 	return b
+}
+
+// c14Conn is the chain backend the package's reorg helpers (HandleMissedBlocks
+// / RewindChain / GetCommonBlockAncestorHeight) talk to: it knows every block
+// ever created (also reorged-out ones) and the backend's current main chain.
+type c14Conn struct{ c *c14 }
+
+func (cc c14Conn) GetBlockHeader(h *chainhash.Hash) (*wire.BlockHeader, error) {
+	b, ok := cc.c.blkByHash[*h]
+	if !ok {
+		return nil, fmt.Errorf("unknown block %v", h)
+	}
+	hdr := b.blk.MsgBlock().Header
+	return &hdr, nil
+}
+
+func (cc c14Conn) GetBlockHeaderVerbose(h *chainhash.Hash) (
+	*btcjson.GetBlockHeaderVerboseResult, error) {
+
+	b, ok := cc.c.blkByHash[*h]
+	if !ok {
+		return nil, fmt.Errorf("unknown block %v", h)
+	}
+	return &btcjson.GetBlockHeaderVerboseResult{Height: int32(b.height)}, nil
+}
+
+func (cc c14Conn) GetBlockHash(height int64) (*chainhash.Hash, error) {
+	b, ok := cc.c.backend[uint32(height)]
+	if !ok {
+		return nil, fmt.Errorf("no block at height %d", height)
+	}
+	return b.blk.Hash(), nil
 }
 
 // position of tx id on the active chain.
@@ -735,8 +776,11 @@ func (c *c14) opCancel(i int) {
 }
 
 func (c *c14) opConnect(txs []int) {
+	c.opConnectBlock(c.mkBlock(c.cur+1, txs))
+}
+
+func (c *c14) opConnectBlock(b *c14Block) {
 	h := c.cur + 1
-	b := c.mkBlock(h, txs)
 	res := c.run(func() string {
 		if err := c.n.ConnectTip(b.blk, h); err != nil {
 			return c14Err(err)
@@ -753,6 +797,97 @@ func (c *c14) opConnect(txs []int) {
 	}
 	c.pf("conn %d %s => %s", h, c.blockStr(b), res)
 	c.after(res)
+}
+
+// opSwitchFork: the chain backend switches, in one step, to a fork that
+// branches off k blocks below the notifier's tip (without delivering the
+// individual disconnects) and then announces the fork's tip.  The notifier side
+// is driven exactly like the bitcoind/btcd notifiers do it: the real
+// HandleMissedBlocks (GetCommonBlockAncestorHeight + RewindChain) against a
+// ChainConn backed by the harness's chains, then ConnectTip+NotifyHeight for
+// every missed block and the new tip.
+func (c *c14) opSwitchFork(k int, extra int) {
+	old := c.cur
+	oldTip := c.chain[old]
+	common := old - uint32(k)
+	saved := map[uint32]*c14Block{}
+	for h, b := range c.chain {
+		saved[h] = b
+	}
+	// build the fork on top of the common ancestor (valid contents)
+	for h := common + 1; h <= old; h++ {
+		delete(c.chain, h)
+	}
+	c.cur = common
+	var fork []*c14Block
+	for i := 0; i < k+extra; i++ {
+		b := c.mkBlock(c.cur+1, c.genTxs(0.3))
+		c.chain[c.cur+1] = b
+		c.cur++
+		fork = append(fork, b)
+	}
+	c.backend = map[uint32]*c14Block{}
+	for h, b := range c.chain {
+		c.backend[h] = b
+	}
+	newTip := c.cur
+	// back to what the notifier has been told so far
+	c.chain = saved
+	c.cur = old
+
+	hdr := oldTip.blk.MsgBlock().Header
+	var height uint32
+	res := c.run(func() string {
+		best, missed, err := HandleMissedBlocks(
+			c14Conn{c}, c.n, BlockEpoch{
+				Height: int32(old), Hash: oldTip.blk.Hash(), BlockHeader: &hdr,
+			}, int32(newTip), true,
+		)
+		if err != nil {
+			if strings.Contains(err.Error(), "out of order") {
+				return "err order"
+			}
+			return "err other"
+		}
+		r := "ok"
+		if best.Height != int32(common) || len(missed) != len(fork)-1 {
+			r += " badmissed"
+		} else {
+			for i, m := range missed {
+				if *m.Hash != *fork[i].blk.Hash() || m.Height != int32(fork[i].height) {
+					r = "ok badmissed"
+				}
+			}
+		}
+		return r
+	})
+	if res != "blocked" && res != "panic" {
+		c.n.Lock()
+		height = c.n.currentHeight
+		c.n.Unlock()
+	}
+	// the backend's main chain is the fork from now on, whatever the notifier did
+	for h := common + 1; h <= old; h++ {
+		delete(c.chain, h)
+	}
+	c.cur = common
+	c.stats[fmt.Sprintf("rewind_depth_%d", k)]++
+	c.pf("rewind %d => %s", k, res)
+	c.after(res)
+	if res != "ok" {
+		_ = height
+		c.dead = true
+		return
+	}
+	for _, b := range fork {
+		if c.dead {
+			return
+		}
+		c.opConnectBlock(b)
+		if !c.dead {
+			c.opNotify(c.cur)
+		}
+	}
 }
 
 // a connect at a wrong height (must be refused without any effect).
@@ -979,6 +1114,9 @@ func (c *c14) oneCase(kind string, nops int) {
 	c.hc = newC14Hints()
 	c.chain = map[uint32]*c14Block{}
 	c.blkByID = map[chainhash.Hash]int{}
+	c.blkByHash = map[chainhash.Hash]*c14Block{}
+	c.nextBlk = -1
+	c.chain[0] = c.mkBlock(0, nil) // genesis, id 0 (never printed)
 	c.nextBlk = 0
 	c.regs = nil
 	c.confReq = map[int]ConfRequest{}
@@ -1099,6 +1237,25 @@ func (c *c14) oneCase(kind string, nops int) {
 				invalid("bad_disconnect")
 				c.opDisconnect(c.cur + 1)
 				continue
+			}
+			if !malformed && !c.lazy && c.rng.Intn(3) == 0 {
+				// the backend switches to a fork in one step
+				maxK := 0
+				for kk := 1; kk <= int(c.cur); kk++ {
+					if c.cur-uint32(kk)+c.limit > c.maxTip {
+						maxK = kk
+					}
+				}
+				if maxK >= 1 {
+					kk := 1 + c.rng.Intn(maxK)
+					if maxK >= 2 && c.rng.Intn(2) == 0 {
+						kk = 2 + c.rng.Intn(maxK-1)
+					}
+					if c.cur+1 <= 12 {
+						c.opSwitchFork(kk, c.rng.Intn(2))
+						continue
+					}
+				}
 			}
 			discRun = true
 			c.opDisconnect(c.cur)
